@@ -7,6 +7,9 @@ from hypothesis import strategies as st
 from vlib.core import Facet, Violation, ALLOWED, guard, attempt, eq, expect
 from vlib import gen
 
+from ref import mdsha as RMD, blake as RBL, keccak as RKE, skein as RSK, aes as RAES, des as RDES, serpent as RSER, threefish as RTF, modes as RMO
+import hashlib, hmac as pyhmac
+
 from crysp.bits import Bits
 from crysp import sha as csha, md as cmd, keccak as ckeccak, blake as cblake, skein as cskein, hmac as chmac, tlsh as ctlsh
 from crysp import nilsimsa as cnil, aes as caes, des as cdes, serpent as cser, threefish as ctf, mode as cmode, padding as cpad
@@ -112,32 +115,48 @@ def md6_factory(d=256, L=64, key=b""):
 KINDS = {}
 
 
-def kind(name, factory, calls, other=None, singleton=None):
-    KINDS[name] = {"factory": factory, "calls": calls, "other": other, "singleton": singleton}
+def kind(name, factory, calls, other=None, singleton=None, expect=None):
+    """expect: {call label: independent expected value} - pins what a FRESH object must return (class-level state shared between
+    instances can make fresh objects wrong too, which the fresh-object oracle alone cannot see)"""
+    KINDS[name] = {"factory": factory, "calls": calls, "other": other, "singleton": singleton, "expect": expect or {}}
 
 
-kind("SHA1", lambda: csha.SHA1(), hash_calls(64), other=lambda: csha.SHA1(version=0))
-kind("SHA2-256", lambda: csha.SHA2(256), hash_calls(64), other=lambda: csha.SHA2(224))
-kind("SHA2-512/256", lambda: csha.SHA2(512, 256), hash_calls(128), other=lambda: csha.SHA2(512))
-kind("MD4", lambda: cmd.MD4(), hash_calls(64), other=lambda: cmd.MD5())
-kind("MD5", lambda: cmd.MD5(), hash_calls(64), other=lambda: cmd.MD4())
+def hexp(f):
+    return {"h(abc)": f(M1), "h(200B)": f(M2), "h(empty)": f(M0)}
+
+
+def cexp(enc, dec, n):
+    blk1, blk2 = bytes(range(n)), bytes((255 - i) & 255 for i in range(n))
+    return {"enc(B1)": enc(blk1), "dec(B1)": dec(blk1), "enc(B2)": enc(blk2), "dec(B2)": dec(blk2)}
+
+
+kind("SHA1", lambda: csha.SHA1(), hash_calls(64), other=lambda: csha.SHA1(version=0), expect=hexp(lambda m: hashlib.sha1(m).digest()))
+kind("SHA2-256", lambda: csha.SHA2(256), hash_calls(64), other=lambda: csha.SHA2(512, 256), expect=hexp(lambda m: hashlib.sha256(m).digest()))
+kind("SHA2-224", lambda: csha.SHA2(224), hash_calls(64), other=lambda: csha.SHA2(512, 224), expect=hexp(lambda m: hashlib.sha224(m).digest()))
+kind("SHA2-384", lambda: csha.SHA2(384), hash_calls(128), other=lambda: csha.SHA2(512), expect=hexp(lambda m: hashlib.sha384(m).digest()))
+kind("SHA2-512/256", lambda: csha.SHA2(512, 256), hash_calls(128), other=lambda: csha.SHA2(256), expect=hexp(lambda m: hashlib.new("sha512_256", m).digest()))
+kind("SHA2-512/224", lambda: csha.SHA2(512, 224), hash_calls(128), other=lambda: csha.SHA2(224), expect=hexp(lambda m: hashlib.new("sha512_224", m).digest()))
+kind("MD4", lambda: cmd.MD4(), hash_calls(64), other=lambda: cmd.MD5(), expect=hexp(lambda m: RMD.digest("md4", m)))
+kind("MD5", lambda: cmd.MD5(), hash_calls(64), other=lambda: cmd.MD4(), expect=hexp(lambda m: hashlib.md5(m).digest()))
 kind("MD6", md6_factory(), [one("h(abc)", lambda h: h(M1)), one("h(600B)", lambda h: h(M3)), one("h(abc,bitlen=21)", lambda h: h(M1, bitlen=21)),
                              one("h(600B,bitlen=4797)", lambda h: h(M3, bitlen=4797)), one("h(abc,bitlen=100)->error", lambda h: h(M1, bitlen=100)),
                              one("h(empty)", lambda h: h(M0))], other=md6_factory(160, 0, b"key"))
 kind("SHA3-256", lambda: csha.SHA3(256), [one("h(abc)", lambda h: h(M1)), one("h(200B)", lambda h: h(M2)), one("h(empty)", lambda h: h(M0)),
                                            one("Keccak call with bitlen", lambda h: ckeccak.Keccak.__call__(h, M1, bitlen=21)),
                                            hist("duplex(1 bit)", lambda k: k.duplex(b"\x01", bitlen=1, outlen=8))], other=lambda: csha.SHA3(512))
-kind("Keccak", lambda: ckeccak.Keccak(b=1600, c=512, len=256), keccak_calls(), other=lambda: ckeccak.Keccak(b=200, r=40, len=160))
+kind("Keccak", lambda: ckeccak.Keccak(b=1600, c=512, len=256), keccak_calls(), other=lambda: ckeccak.Keccak(b=200, r=40, len=160),
+     expect={"k(abc)": RKE.keccak(1600, 1088, M1, 24, 256), "k(200B)": RKE.keccak(1600, 1088, M2, 1600, 256)})
 kind("Keccak-small", lambda: ckeccak.Keccak(b=200, r=40, len=160), keccak_calls()[:3] + [one("k(abc,r=64)", lambda k: k(M1, r=64))] + keccak_calls()[6:],
      other=lambda: ckeccak.Keccak(b=400, r=144, len=64))
 kind("Blake-256", lambda: cblake.Blake(256), hash_calls(64)[:5] + [one("h(abc,s=5)", lambda h: h(M1, s=5)), one("h(200B,s=2^100)", lambda h: h(M2, s=1 << 100))] + hash_calls(64)[5:],
-     other=lambda: cblake.Blake(224))
-kind("Blake-512", lambda: cblake.Blake(512), hash_calls(128)[:5] + [one("h(abc,s=5)", lambda h: h(M1, s=5))] + hash_calls(128)[5:], other=lambda: cblake.Blake(384))
-kind("Blake2b", lambda: cblake.Blake2(512), blake2_calls(), other=lambda: cblake.Blake2(256))
-kind("Blake2s", lambda: cblake.Blake2(256), blake2_calls(), other=lambda: cblake.Blake2(512))
+     other=lambda: cblake.Blake(224), expect=hexp(lambda m: RBL.blake(256, m)))
+kind("Blake-512", lambda: cblake.Blake(512), hash_calls(128)[:5] + [one("h(abc,s=5)", lambda h: h(M1, s=5))] + hash_calls(128)[5:], other=lambda: cblake.Blake(384), expect=hexp(lambda m: RBL.blake(512, m)))
+kind("Blake2b", lambda: cblake.Blake2(512), blake2_calls(), other=lambda: cblake.Blake2(256), expect=hexp(lambda m: hashlib.blake2b(m).digest()))
+kind("Blake2s", lambda: cblake.Blake2(256), blake2_calls(), other=lambda: cblake.Blake2(512), expect=hexp(lambda m: hashlib.blake2s(m).digest()))
 kind("Skein-256", lambda: cskein.Skein(256, 256), [one("h(abc)", lambda h: h(M1)), one("h(200B)", lambda h: h(M2)), one("h(abc,bitlen=21)", lambda h: h(M1, bitlen=21)),
                                                     one("h(empty)", lambda h: h(M0)), hist("update(abc)", lambda h: h.update(M1)),
-                                                    hist("update(abc,'key')", lambda h: h.update(M1, "key"))], other=lambda: cskein.Skein(512, 256))
+                                                    hist("update(abc,'key')", lambda h: h.update(M1, "key"))], other=lambda: cskein.Skein(512, 256),
+     expect=hexp(lambda m: RSK.skein(256, 256, m)))
 kind("Skein-mac-long-output", lambda: cskein.Skein(512, 1032, key=b"k1"), [one("h(abc)", lambda h: h(M1)), one("h(200B)", lambda h: h(M2)), one("h(abc,bitlen=17)", lambda h: h(M1, bitlen=17)),
                                                                             hist("update(abc)", lambda h: h.update(M1))], other=lambda: cskein.Skein(512, 1032, key=b"k2"))
 kind("Skein-tree", lambda: cskein.Skein(256, 256, Yl=1, Yf=1, Ym=2), [one("h(abc)", lambda h: h(M1)), one("h(200B)", lambda h: h(M2)), one("h(empty)", lambda h: h(M0)),
@@ -146,7 +165,8 @@ kind("HMAC-SHA256", lambda: chmac.HMAC(csha.SHA2(256), b"key one"), [one("mac(ab
                                                                       hist("inner hash called directly", lambda m: m.h(M2)),
                                                                       hist("inner hash update unfinished", lambda m: (m.h.initstate(), m.h.update(B64))),
                                                                       hist("inner hash error", lambda m: m.h(M1, bitlen=100))],
-     other=lambda: chmac.HMAC(csha.SHA2(256), b"k" * 100))
+     other=lambda: chmac.HMAC(csha.SHA2(256), b"k" * 100),
+     expect={"mac(abc)": pyhmac.new(b"key one", M1, "sha256").digest(), "mac(200B)": pyhmac.new(b"key one", M2, "sha256").digest(), "mac(empty)": pyhmac.new(b"key one", M0, "sha256").digest()})
 kind("HMAC-MD5", lambda: chmac.HMAC(cmd.MD5(), b"k" * 70), [one("mac(abc)", lambda m: m(M1)), one("mac(200B)", lambda m: m(M2)),
                                                               hist("inner hash update unfinished", lambda m: (m.h.initstate(), m.h.update(B64)))],
      other=lambda: chmac.HMAC(cmd.MD5(), b"other"))
@@ -158,11 +178,11 @@ kind("TLSH", lambda: ctlsh.TLSH(128), [one("t(400B)", lambda t: t(TLSH_DATA)), o
 kind("Nilsimsa", lambda: cnil.Nilsimsa(), [one("n(abc)", lambda n: n(M1)), one("n(200B)", lambda n: n(M2)), one("n(empty)", lambda n: n(M0)),
                                             hist("update(xyz) unfinished", lambda n: n.update(b"xyz")), hist("update(200B);digest()", lambda n: n.update(M2).digest())],
      other=lambda: cnil.Nilsimsa(17))
-kind("AES", lambda: caes.AES(KEY16), cipher_calls(16), other=lambda: caes.AES(KEY24 + bytes(8)))
-kind("DES", lambda: cdes.DES(KEY8), cipher_calls(8), other=lambda: cdes.DES(bytes(8)))
-kind("TDEA", lambda: cdes.TDEA(KEY24), cipher_calls(8), other=lambda: cdes.TDEA(KEY8))
-kind("Serpent", lambda: cser.Serpent(KEY16), cipher_calls(16), other=lambda: cser.Serpent(KEY24))
-kind("Threefish-256", lambda: ctf.Threefish(B32, B16), cipher_calls(32), other=lambda: ctf.Threefish(B32, IV16))
+kind("AES", lambda: caes.AES(KEY16), cipher_calls(16), other=lambda: caes.AES(KEY24 + bytes(8)), expect=cexp(lambda b: RAES.enc(KEY16, b), lambda b: RAES.dec(KEY16, b), 16))
+kind("DES", lambda: cdes.DES(KEY8), cipher_calls(8), other=lambda: cdes.DES(bytes(8)), expect=cexp(lambda b: RDES.enc(KEY8, b), lambda b: RDES.dec(KEY8, b), 8))
+kind("TDEA", lambda: cdes.TDEA(KEY24), cipher_calls(8), other=lambda: cdes.TDEA(KEY8), expect=cexp(lambda b: RDES.tdea_enc(KEY24[:8], KEY24[8:16], KEY24[16:], b), lambda b: RDES.tdea_dec(KEY24[:8], KEY24[8:16], KEY24[16:], b), 8))
+kind("Serpent", lambda: cser.Serpent(KEY16), cipher_calls(16), other=lambda: cser.Serpent(KEY24), expect=cexp(lambda b: RSER.enc(KEY16, b), lambda b: RSER.dec(KEY16, b), 16))
+kind("Threefish-256", lambda: ctf.Threefish(B32, B16), cipher_calls(32), other=lambda: ctf.Threefish(B32, IV16), expect=cexp(lambda b: RTF.tf_enc(B32, B16, b), lambda b: RTF.tf_dec(B32, B16, b), 32))
 kind("Threefish-512", lambda: ctf.Threefish(B64, B16), cipher_calls(64), other=lambda: ctf.Threefish(B64[::-1], B16))
 kind("ECB-AES-pkcs7", lambda: cmode.ECB(caes.AES(KEY16)), mode_calls(16, lambda m: cmode.ECB(caes.AES(KEY16)).enc(m)), other=lambda: cmode.ECB(caes.AES(KEY16), cpad.X923))
 kind("ECB-DES-bitpadding", lambda: cmode.ECB(cdes.DES(KEY8), cpad.bitpadding), mode_calls(8, lambda m: cmode.ECB(cdes.DES(KEY8), cpad.bitpadding).enc(m)),
@@ -172,6 +192,11 @@ kind("CBC-TDEA-x923", lambda: cmode.CBC(cdes.TDEA(KEY24), IV8, cpad.X923), mode_
      other=lambda: cmode.CBC(cdes.TDEA(KEY24), IV8))
 kind("CTR-AES", lambda: cmode.CTR(caes.AES(KEY16), IV16), mode_calls(16, lambda m: cmode.CTR(caes.AES(KEY16), IV16).enc(m))[:5] + [one("enc(40B)", lambda m: m.enc(M2[:40]))],
      other=lambda: cmode.CTR(caes.AES(KEY16), cmode.DefaultCounter(16).setup(B8, b"\xff" * 8)))
+kind("CTR-AES-counter-near-wrap", lambda: cmode.CTR(caes.AES(KEY16), cmode.DefaultCounter(16).setup(B8, ((1 << 64) - 2).to_bytes(8, "big"))),
+     [one("enc(40B) wraps", lambda m: m.enc(M2[:40])), one("enc(5B)", lambda m: m.enc(M2[:5])), one("dec(70B) wraps", lambda m: m.dec(M2[:70])), one("enc(16B)", lambda m: m.enc(B16))],
+     other=lambda: cmode.CTR(cdes.DES(KEY8), IV8[:4] + b"\xff\xff\xff\xfe"),
+     expect={"enc(5B)": RMO.ctr(lambda b: RAES.enc(KEY16, b), 16, B8, ((1 << 64) - 2).to_bytes(8, "big"), M2[:5]),
+             "enc(40B) wraps": RMO.ctr(lambda b: RAES.enc(KEY16, b), 16, B8, ((1 << 64) - 2).to_bytes(8, "big"), M2[:40])})
 kind("CTS_CBC-DES", lambda: cmode.CTS_CBC(cdes.DES(KEY8), IV8), [one("enc(19B)", lambda m: m.enc(M2[:19])), one("enc(16B)", lambda m: m.enc(M2[:16])),
                                                                   one("dec(27B)", lambda m: m.dec(M2[:27])), one("enc(8B)", lambda m: m.enc(M2[:8]))],
      other=lambda: cmode.CTS_ECB(cdes.DES(KEY8)))
@@ -240,6 +265,10 @@ def check_history(c):
             if call.oneshot:
                 fresh = k["factory"]() if c["kind"] != "crc" else ccrc
                 exp = outcome(call.fn, fresh) if c["kind"] != "crc" else _FIRST[("crc", 0, ci)]
+                pinned = k["expect"].get(call.label)
+                if pinned is not None and exp != ("ok", pinned):
+                    raise Violation("%s:fresh-object-differs-from-independent-reference" % family(c["kind"]), ("ok", pinned), exp,
+                                    "class-level state shared between instances? history: " + " ; ".join(prev_labels))
                 key = (c["kind"], 0, ci)
                 first = _FIRST.setdefault(key, exp)
                 if exp != first:
@@ -322,7 +351,7 @@ FACETS = [
           rule="for each of the %d object kinds (hashes, sponge, MD6, BLAKE/BLAKE2, Skein, HMAC, TLSH, Nilsimsa, block ciphers, ECB/CBC/CTR/CTS, Salsa20/ChaCha, "
                "the module singletons keccak_*/blake*/blake2b/blake2s/tlsh, CRC functions): EVERY sequence of length <= 2 (<= 3 thorough) over its call "
                "alphabet (one-shot calls with other messages/options, calls that raise, unfinished incremental calls) ending in a one-shot call" % len(KINDS)),
-    Facet("sequences-sampled", check_history, strategy=sampled_strategy, budget={"quick": 2500, "thorough": 60000}, shards={"quick": 16, "thorough": 32},
+    Facet("sequences-sampled", check_history, strategy=sampled_strategy, budget={"quick": 2000, "thorough": 60000}, shards={"quick": 16, "thorough": 32},
           nontrivial=nontriv, classify=classify,
           rule="sequences of 3..8 (12) calls, each on the instance under test, on a sibling of the same configuration or on a sibling / module "
                "singleton of another configuration"),
